@@ -364,6 +364,47 @@ example : ∃ s, Reachable { proto := .fixed, maxQ := 1, ncb := 1 } 2 s ∧ s.fu
     (s' := (runTrace { proto := .fixed, maxQ := 1, ncb := 1 } tr (init 2)).get (by decide)) (by simp), ?_⟩
   decide
 
+/-! ### start() whose server creation fails -/
+
+/-- **A failing start() takes the listener down like stop().**  When the server creation of a start() call fails
+    (`failStart`: HTTP or HTTPS port in use, address error, bad certificate/key file; possibly while the HTTP
+    server is already serving and indications are in the queue or in a callback): the user sees the listener as
+    not started, and some continuation without any further start() call ends in a state where start() has raised
+    and everything of `C16_stop_returns_clean` / `C16_stop_leaves_no_server` holds – in particular every
+    indication acknowledged by the already running HTTP server has been delivered to every callback, exactly once.
+    (All other theorems of this file quantify over schedules that contain failing starts as well: `failStart` is
+    a label of the step relation.) -/
+theorem C16_failed_start_cleans_up (c : Cfg) (hc : c.proto = .fixed) (n : Nat) (s s1 : Sys)
+    (h : Reachable c n s) (hf : step c .failStart s = some s1) :
+    s1.up = false ∧ s1.startFails = s.startFails + 1 ∧ s1.errs = [] ∧
+    ∃ ls s', (∀ l ∈ ls, l ≠ .start) ∧ runTrace c ls s1 = some s' ∧ s'.main = .idle ∧ s'.up = false ∧
+      s'.log = expand c.ncb s'.enq ∧ (∀ x, x ∈ s'.acked ↔ x ∈ s'.enq) ∧ s'.srv = false ∧ s'.srv2 = false ∧
+      s'.qref = false ∧ s'.thrRef = false ∧ s'.errs = [] := by
+  have h1 : Reachable c n s1 := Reachable.step .failStart h hf
+  have hup : s1.up = false ∧ s1.startFails = s.startFails + 1 := by
+    simp only [step, stepFail] at hf
+    split at hf
+    · split at hf <;> injection hf with hf <;> subst hf
+      · simp
+      · simp [stopHttps, afterServers, afterQ]
+        split <;> (try split) <;> (try split) <;> (try split) <;> simp
+    · simp at hf
+  obtain ⟨ls, s', hns, hrun, hidle, hup'⟩ := C16_stop_can_always_return c hc n s1 h1
+  have hr' := reachable_runTrace h1 ls hrun
+  obtain ⟨a1, a2, a3, _, _, _, _, a8, a9, _⟩ := C16_stop_returns_clean c hc n s' hr' hidle hup'
+  obtain ⟨b1, b2, _⟩ := C16_stop_leaves_no_server c hc n s' hr' hidle hup'
+  exact ⟨hup.1, hup.2, (inv_reachable hc h1).ctl.noErr, ls, s', hns, hrun, hidle, hup', a1, a2, b1, b2, a8, a9, a3⟩
+
+/-- the HTTPS server cannot be created while the HTTP server has accepted an indication that is still queued -/
+def failTrace : List Label :=
+  [.start, .main, .main, .main, .snd 0, .snd 0, .snd 0, .failStart]
+
+example : ∃ s s1, Reachable bothCfg 1 s ∧ step bothCfg .failStart s = some s1 ∧ s1.main = .tShutdown ∧
+    s1.queue = [(0, 0)] ∧ s1.acked = [(0, 0)] ∧ s1.startFails = 1 := by
+  refine ⟨(runTrace bothCfg (failTrace.take 7) (init 1)).get (by decide), _,
+    reachable_runTrace Reachable.init (failTrace.take 7) (by simp), rfl, ?_⟩
+  decide
+
 /-! ### add_callback: which callbacks are registered, and in which order -/
 
 /-- **Registered callbacks.**  After any sequence `regs` of `add_callback` calls (callbacks identified up to
